@@ -30,6 +30,11 @@ def is_iter_by_block(e):
     return isinstance(e, ast.Call) and isinstance(e.func, ast.Attribute) and e.func.attr == "iter_by_block"
 
 
+def loop_iter(p, fn, lp):
+    """the iterated expression of a loop with single-definition aliases resolved (blocks = x.iter_by_block(n); async for b in blocks)"""
+    return expand(p, lp.iter, fn)
+
+
 def rule_ack(ctx):
     p = ctx.p
     ctx.rule("C01.ACK", "completion reply only after the file and data-stream contexts were exited")
@@ -73,7 +78,7 @@ def _loops(p):
     for name in ("upload", "download"):
         if name in cm:
             for n in walk_no_nested(cm[name]):
-                if isinstance(n, ast.AsyncFor) and is_iter_by_block(n.iter):
+                if isinstance(n, ast.AsyncFor) and is_iter_by_block(loop_iter(p, cm[name], n)):
                     out.append((cm[name], n, "client"))
     return out
 
@@ -83,12 +88,13 @@ def rule_copy(ctx):
     ctx.rule("C01.COPY", "every copy loop writes exactly the block it read, once per iteration, unmodified, to the opposite endpoint")
     n_byte = 0
     for fn, lp, side in _loops(p):
-        if not is_iter_by_block(lp.iter):
+        it_ = loop_iter(p, fn, lp)
+        if not is_iter_by_block(it_):
             continue
         n_byte += 1
         var = lp.target.id if isinstance(lp.target, ast.Name) else None
-        src_obj = src(lp.iter.func.value)
-        label = f"{p.qualname(fn)}:{src(lp.iter)[:40]}"
+        src_obj = src(it_.func.value)
+        label = f"{p.qualname(fn)}:{src(it_)[:40]}"
         ok, why, arg = True, "", None
         if var is None:
             ok, why = False, "loop target is not a simple name"
@@ -135,9 +141,9 @@ def rule_copy(ctx):
     # listing loops: one write per listed entry; the only accepted skip is `if not exists(entry): continue`
     n_list = 0
     for fn, lp, side in _loops(p):
-        if is_iter_by_block(lp.iter) or side != "server":
+        if is_iter_by_block(loop_iter(p, fn, lp)) or side != "server":
             continue
-        it = lp.iter
+        it = loop_iter(p, fn, lp)
         if not (isinstance(it, ast.Call) and isinstance(it.func, ast.Attribute) and it.func.attr == "list" and last_attr(it.func.value) == "path_io"):
             continue
         n_list += 1
@@ -148,6 +154,7 @@ def rule_copy(ctx):
             if out[0] == "continue" and not writes:
                 # reasoned exception: entry vanished between listing and stat
                 conds = [(e[1], e[2]) for e in ev if e[0] == "branch"]
+                conds = [(deep_expand(p, t, fn), pol) for t, pol in conds]
                 vanished = any(_is_exists_test(t, var) is (not pol) for t, pol in conds if _is_exists_test(t, var) is not None)
                 if not vanished:
                     ok, why = False, "an entry is skipped by `continue` for a reason other than having vanished"
@@ -382,7 +389,7 @@ def rule_seek(ctx):
         if not opens:
             ctx.fail("C01.SEEK", w, f"{w.name}: no backend open found", construct=f"seek:{w.name}:no open")
             continue
-        upload = any(is_iter_by_block(l.iter) and last_attr(l.iter.func.value) != None and any(
+        upload = any(is_iter_by_block(loop_iter(p, w, l)) and any(
             isinstance(c, ast.Call) and isinstance(c.func, ast.Attribute) and c.func.attr == "write" and _is_file(p, c.func.value, w, opens) for c in ast.walk(l))
             for l in walk_no_nested(w) if isinstance(l, ast.AsyncFor))
         paths = enum_paths(p, w)
@@ -418,7 +425,7 @@ def rule_seek(ctx):
                 continue   # infeasible: the same offset tested with different outcomes
             # mode on this path: evaluate the open's mode argument under the path's assignments
             mode = kwarg(opens[0], "mode", 1)
-            mode_vals = _mode_on_path(p, mode, ev, w, h)
+            mode_vals = _mode_on_path(p, mode, ev, w, h, off_truth)
             verdicts.setdefault(off_truth, []).append((mode_vals, seeks, seek_after_loop, off_expr))
         if True not in verdicts and None in verdicts and not any(s for m, s, a, o in verdicts[None]):
             ctx.fail("C01.SEEK", w, f"{w.name}: transfer consumes a restart offset but never seeks", construct=f"seek:{w.name}:none")
@@ -489,12 +496,23 @@ def _is_offset_expr(p, t, h, w):
     return False
 
 
-def _mode_on_path(p, mode, ev, w, h):
+def _mode_on_path(p, mode, ev, w, h, off_truth=None):
     """possible values of the open-mode expression on one path: constants, 'PARAM' for the handler's mode parameter"""
     if mode is None:
         return ["rb"]
     if isinstance(mode, ast.Constant):
         return [mode.value]
+    if isinstance(mode, ast.IfExp):
+        if not _is_offset_expr(p, mode.test, h, w):
+            return None
+        neg = isinstance(mode.test, ast.UnaryOp) and isinstance(mode.test.op, ast.Not)
+        t_branch, f_branch = (mode.orelse, mode.body) if neg else (mode.body, mode.orelse)
+        if off_truth is True:
+            return _mode_on_path(p, t_branch, ev, w, h, off_truth)
+        if off_truth is False:
+            return _mode_on_path(p, f_branch, ev, w, h, off_truth)
+        a, b = _mode_on_path(p, t_branch, ev, w, h, off_truth), _mode_on_path(p, f_branch, ev, w, h, off_truth)
+        return None if a is None or b is None else a + b
     if isinstance(mode, ast.Name):
         last = None
         for e in ev:
@@ -505,13 +523,15 @@ def _mode_on_path(p, mode, ev, w, h):
             if mode.id in hp[3:]:
                 return ["PARAM"]
             return None
+        if isinstance(last, ast.IfExp):
+            return _mode_on_path(p, last, ev, w, h, off_truth)
         if isinstance(last, ast.Constant):
             return [last.value]
         if isinstance(last, ast.Name):
             hp = [a.arg for a in h.args.args]
             if last.id in hp[3:]:
                 return ["PARAM"]
-            return _mode_on_path(p, last, ev, w, h)
+            return _mode_on_path(p, last, ev, w, h, off_truth)
         return None
     return None
 
@@ -532,6 +552,20 @@ def rule_keep(ctx):
     # the clear is ordered after the handler task was created? irrelevant; but it must not clear right after REST: REST sets it in its own task later. ok.
 
 
+def _rest_parts(p, e, fn):
+    """('REST ', name of the value appended) for 'REST ' + str(x) / f'REST {x}' (through single-definition aliases), else None"""
+    e = deep_expand(p, e, fn)
+    if isinstance(e, ast.BinOp) and isinstance(e.op, ast.Add) and isinstance(e.left, ast.Constant) and str(e.left.value).startswith("REST"):
+        r = e.right
+        if isinstance(r, ast.Call) and isinstance(r.func, ast.Name) and r.func.id == "str" and len(r.args) == 1:
+            r = r.args[0]
+        return e.left.value, src(r)
+    if isinstance(e, ast.JoinedStr) and len(e.values) == 2 and isinstance(e.values[0], ast.Constant) and str(e.values[0].value).startswith("REST") and isinstance(e.values[1], ast.FormattedValue) \
+            and e.values[1].format_spec is None:
+        return e.values[0].value, src(e.values[1].value)
+    return None
+
+
 def rule_cli(ctx):
     p = ctx.p
     ctx.rule("C01.CLI", "client: REST only for a non-zero offset, immediately before the transfer command; finish() closes the data stream before awaiting the reply")
@@ -542,7 +576,7 @@ def rule_cli(ctx):
     for c in order:
         if c.func.attr == "get_passive_connection":
             names.append("passive")
-        elif c.args and isinstance(c.args[0], ast.BinOp) and isinstance(c.args[0].left, ast.Constant) and str(c.args[0].left.value).startswith("REST"):
+        elif c.args and _rest_parts(p, c.args[0], gs) is not None:
             names.append("REST")
         elif c.args and isinstance(c.args[0], ast.Starred):
             names.append("TRANSFER")
@@ -553,7 +587,8 @@ def rule_cli(ctx):
     rest_calls = [c for c, nm in zip(order, names) if nm == "REST"]
     for c in rest_calls:
         guards = all_guards(p, c, gs)
-        ok = any(pol and isinstance(t, ast.Name) and t.id == "offset" for t, pol in guards) and src(c.args[0].right) == "str(offset)" and c.args[0].left.value == "REST "
+        prefix, arg = _rest_parts(p, c.args[0], gs)
+        ok = any(pol and isinstance(t, ast.Name) and t.id == "offset" for t, pol in guards) and arg == "offset" and prefix == "REST "
         ctx.ob("C01.CLI", c, "REST <offset> is sent iff offset is non-zero, with the caller's offset", ok,
                "REST is not sent exactly for a non-zero offset with the caller's offset", construct="cli:REST guard")
         exp = c.args[1] if len(c.args) > 1 else None
